@@ -124,6 +124,10 @@ type Server struct {
 	ListPlan  func(n int) ListFault
 	WatchPlan func(n int) WatchFault
 
+	// MaxLists > 0: the (MaxLists+1)-th and later List calls block until their context
+	// ends and ListStorm is set.
+	MaxLists  int
+	ListStorm bool
 	// OnList is invoked (outside the lock) when a List call starts.
 	OnList func(n int)
 
@@ -135,7 +139,9 @@ func NewPodServer(core *Core) *Server {
 }
 
 func NewServer(core *Core, newList func() runtime.Object) *Server {
-	return &Server{NewList: newList, objs: map[string]runtime.Object{}, streams: map[*stream]struct{}{}, core: core}
+	// MaxLists: no scenario of the harness comes near 20000 list calls; a library that
+	// relists without pause would otherwise keep a bubble busy for ever at one instant
+	return &Server{NewList: newList, objs: map[string]runtime.Object{}, streams: map[*stream]struct{}{}, core: core, MaxLists: 20000}
 }
 
 func okey(o runtime.Object) string {
@@ -296,6 +302,14 @@ func (s *Server) List(ctx context.Context, opts metav1.ListOptions) (runtime.Obj
 	var f ListFault
 	if s.ListPlan != nil {
 		f = s.ListPlan(n)
+	}
+	if s.MaxLists > 0 && n > s.MaxLists {
+		// a list storm (calls without any pause in virtual time would keep the bubble
+		// busy for ever): refuse to take part any longer, the case reports it
+		s.ListStorm = true
+		s.mu.Unlock()
+		<-ctx.Done()
+		return nil, ctx.Err()
 	}
 	call := &ListCall{N: n, Start: time.Now(), Opts: opts, Fault: f}
 	s.lists = append(s.lists, call)
